@@ -107,6 +107,8 @@ def run(ctx) -> None:
            'implemented as (request, context=None), called with one positional argument', 20)
   ctx.rule('R5', 'handlers around service-handle calls treat KeyError-like classes and RpcError alike', 1)
   ctx.rule('R6', 'error details passed to handle_exception are bounded scalars, never whole messages', 10)
+  ctx.rule('R7', 'every handle_exception call in an RPC method passes that RPC\'s context', 10)
+  ctx.rule('R8', 'transport is transparent: no interceptors / per-call deadlines / load shedding on channels, stubs and servers', 3)
   ctx.trust('a non-RpcError exception escaping a servicer method is reported to a gRPC client as '
             'StatusCode.UNKNOWN; in-process it propagates as its own class')
   ctx.trust('gRPC limits status details (trailers) to 16 KiB; LocalRpcError has no limit')
@@ -119,6 +121,8 @@ def run(ctx) -> None:
   r3_r5_clients(ctx, svc)
   r4_duck(ctx, svc)
   r6_details(ctx, svc, he)
+  r7_context_passed(ctx, svc, he)
+  r8_transparent_transport(ctx)
 
 
 # ----------------------------------------------------------------------- R1
@@ -380,6 +384,78 @@ def r6_details(ctx, svc: Svc, he: FuncInfo) -> None:
                   'RESOURCE_EXHAUSTED over the wire only', construct=bad[0] if bad else None, func=fi.qualname)
   if n < 10:
     raise AnalysisError(f'only {n} handle_exception calls found in RPC methods')
+
+
+# ----------------------------------------------------------------------- R7
+def r7_context_passed(ctx, svc: Svc, he: FuncInfo) -> None:
+  """handle_exception(e, context): without the RPC's context the helper raises its *local* error class
+  even inside a gRPC server, which the wire reports as UNKNOWN instead of the documented code."""
+  n = 0
+  hp = [p for p in he.params]
+  for name, fi in svc.rpcs.items():
+    cpar = fi.params[2] if len(fi.params) > 2 else None
+    for c in flow.calls_in(fi.node):
+      callee = svc.resolve_call(fi, c)
+      if callee is None or callee.qualname != he.qualname:
+        continue
+      n += 1
+      passed = None
+      if len(c.args) >= 2:
+        passed = c.args[1]
+      for k in c.keywords:
+        if len(hp) >= 2 and k.arg == hp[1]:
+          passed = k.value
+      ok = passed is not None and isinstance(passed, ast.Name) and passed.id == cpar
+      ctx.check(ok, 'R7', f'{name}: handle_exception(.., {unparse(passed, 20) if passed is not None else "<missing>"}) at line {c.lineno}',
+                where(fi, c), 'the servicer context of this RPC is passed on',
+                'the RPC context is not passed to handle_exception: in a gRPC server the helper cannot abort with the documented '
+                'status code and raises its in-process error class instead, which the client sees as UNKNOWN - the error class '
+                'differs between the local and the gRPC deployment', construct=f'{name}:no-context', func=fi.qualname)
+  if n < 10:
+    raise AnalysisError(f'only {n} handle_exception calls found in RPC methods')
+
+
+# ----------------------------------------------------------------------- R8
+_TRANSPORT_MODULES = ['vizier._src.service.stubs_util', 'vizier._src.service.vizier_server', 'vizier._src.service.vizier_client',
+                      'vizier._src.service.service_policy_supporter', 'vizier._src.service.vizier_service',
+                      'vizier._src.service.pythia_service', 'vizier._src.service.clients']
+
+
+def r8_transparent_transport(ctx) -> None:
+  """The gRPC plumbing adds no failure mode that the in-process deployment lacks: no per-call deadlines
+  or interceptors on channels/stub calls, no load shedding on servers."""
+  n_srv = n_chan = 0
+  for q in _TRANSPORT_MODULES:
+    mi = ctx.index.need_module(q)
+    for c in ast.walk(mi.tree):
+      if not isinstance(c, ast.Call):
+        continue
+      d = dotted(c.func) or ''
+      if d == 'grpc.server':
+        n_srv += 1
+        bad = [k.arg for k in c.keywords if k.arg in ('maximum_concurrent_rpcs', 'interceptors')
+               and not (isinstance(k.value, ast.Constant) and k.value.value is None)]
+        ctx.check(not bad, 'R8', f'{q.rsplit(".", 1)[-1]}: grpc.server(...) at line {c.lineno}', c,
+                  'server queues requests (no load shedding, no interceptors)',
+                  f'grpc.server(..., {", ".join(bad)}=...) rejects or rewrites calls at the transport: a request that the in-process '
+                  'deployment simply serves (or queues) fails with RESOURCE_EXHAUSTED / a different status over gRPC only',
+                  construct=f'grpc.server:{",".join(bad)}', func=q)
+      if d in ('grpc.insecure_channel', 'grpc.secure_channel'):
+        n_chan += 1
+        ctx.ok('R8', f'{q.rsplit(".", 1)[-1]}: {d} at line {c.lineno}', c, 'plain channel')
+      if d == 'grpc.intercept_channel':
+        ctx.bad('R8', f'{q.rsplit(".", 1)[-1]}: grpc.intercept_channel at line {c.lineno}', c,
+                'calls on this channel are rewritten by a client interceptor (deadline / wait_for_ready / metadata): the remote '
+                'deployments get failure modes (e.g. DEADLINE_EXCEEDED for a slow algorithm) that the in-process service cannot have',
+                construct='intercept_channel', func=q)
+      # per-call deadline on a stub / service-handle call
+      if isinstance(c.func, ast.Attribute) and c.func.attr[:1].isupper() and any(k.arg in ('timeout', 'wait_for_ready') for k in c.keywords) \
+          and (dotted(c.func.value) or '').split('.')[-1] in ('_service', '_pythia', 'stub', '_stub', 'temp_pythia_service', 'pythia_service'):
+        ctx.bad('R8', f'{q.rsplit(".", 1)[-1]}: {unparse(c.func, 40)}(timeout=...) at line {c.lineno}', c,
+                'a per-call deadline exists only on the gRPC path: slow calls fail remotely and succeed locally',
+                construct='stub-timeout', func=q)
+  if n_srv < 2 or n_chan < 1:
+    raise AnalysisError(f'transport sites not found (grpc.server: {n_srv}, channels: {n_chan})')
 
 
 def _message_pieces(ctor: ast.Call) -> List[ast.AST]:
